@@ -317,6 +317,15 @@ type Config struct {
 	ReplaySched []int32
 	ReplayDraws []int64
 	Replay      bool
+	// OnSend, if set, observes every completed channel send of a simulated task
+	// (plain sends and select send cases; a send on a closed channel panics and is
+	// not reported): the channel's identity, the value and the step at which the
+	// value was accepted by the channel - into its buffer or by a receiver, which
+	// for a sender that was parked is the receiver's step, not the later one at
+	// which the sender runs again. It is called on the sending task's goroutine,
+	// possibly from several tasks (one at a time): what it writes must be fenced
+	// for the race detector by the caller. It must not block or make steps.
+	OnSend func(ch unsafe.Pointer, v any, step int64)
 }
 
 // Sim is one simulated execution.
@@ -1005,6 +1014,7 @@ func (s *Sim) wake(w *waiter, rep resume) {
 	}
 	t.waits = t.waits[:0]
 	t.state = stWoken
+	rep.n = int64(s.step)
 	t.reply = rep
 	t.parkedOn = ""
 }
